@@ -88,6 +88,17 @@ def own (kv : KV) : String :=
       let r := runFn cc Gen.Body.consumerDrop.body Gen.Body.gaFold []
         ⟨⟨xs, 0, 0, 0, []⟩, ⟨[], 0, 0, 0, []⟩, false, 0, false, 0, false⟩
       OwnE.fmt (match r.2.1 with | .ret _ => "ok" | .panicked => "panicked" | .ub => "ub") (OwnE.canonEvs (r.1.filter visible)) []
+    | "map" =>
+      if kv.getD "form" "o" ≠ "o" then "n/a" else
+      let f : Nat → Option Nat := fun i => if callBad = some i then none else some (1000 + i)
+      let cc : Ctx := { n := n, bad := none, fpan := fun _ => false, cl := f }
+      let r := runFn2 cc Gen.Body.consumerDrop.body Gen.Body.intrusiveDrop.body Gen.Body.gaMap []
+        ⟨⟨xs, 0, 0, 0, []⟩, ⟨[], 0, 0, 0, []⟩, false, 0, false, 0, false⟩
+      let (res, out) : String × List Nat := match r.2.1 with
+        | .ret (.arr l) => ("ok", l)
+        | .panicked => ("panicked", [])
+        | _ => ("ub", [])
+      OwnE.fmt res (OwnE.canonEvs (r.1.filter visible)) out
     | "generate" =>
       let f : Nat → Option Nat := fun i => if callBad = some i then none else some (1000 + i)
       let cc : Ctx := { n := n, bad := none, fpan := fun _ => false, cl := f }
